@@ -706,6 +706,11 @@ def build_trigger(tp_id: str, path: str, line_no: int, args: Dict[str, str], wat
     :param metrics: the metric configs
     :return: the trigger with the actions.
     """
+    # ours from here on: the caller may go on using (and changing) what it passed in
+    args = dict(args)
+    watches = list(watches) if watches is not None else []
+    metrics = list(metrics) if metrics is not None else []
+
     stage_ = METHOD_START if METHOD_NAME in args else LINE_START
 
     if SPAN in args and args[SPAN] == METHOD:
@@ -729,7 +734,7 @@ def build_trigger(tp_id: str, path: str, line_no: int, args: Dict[str, str], wat
 
     actions = [action for action in [snap_action, log_action, metric_action, span_action] if
                action is not None]
-    tracepoint = TracePointConfig(tp_id, path, line_no, dict(args), list(watches), metrics)
+    tracepoint = TracePointConfig(tp_id, path, line_no, args, watches, metrics)
     for action in actions:
         action.with_tracepoint(tracepoint)
 
